@@ -12,7 +12,7 @@ Termination ACROSS suspensions for ANY number of workers, second part (property 
 2. The development is independent of `BumpFree`: the invariant `GInv2` does not contain `NoBump`, the only place where a
    bound on the number of results is needed is the END of the run (`lively_run_over2` takes the bound as a hypothesis).
 3. **bumps** (`BCap`, `resume_bcap`): in every reachable state the bump counter of copy `n` is at most
-   `max(1, |workers| - max_concurrent_tries₀)`: a bump needs an occupied node, i.e. at least `threshold` DIFFERENT workers
+   `max(1, |workers| + 1 - max_concurrent_tries₀)`: a bump needs an occupied node, i.e. at least `threshold` DIFFERENT workers
    holding marks, and after the first bump the threshold is `max_concurrent_tries₀ + bump`.
 4. the sleeps of the result wait (`resume_tick_sleep`): a step that ends inside the same test with the wait counter raised
    announces a sleep of 3000 hundredths as its last event.
